@@ -166,6 +166,8 @@ MUTANTS = [
     ("c13-revert-restore-in-finally", "C13", "pylife/core/broadcaster.py",
      "        finally:\n            self._obj.index = original_obj_index\n            parameter.index = original_parameter_index\n            _replace_unique_string_with_none_name([self._obj, parameter], uuids)\n",
      "        finally:\n            pass\n        self._obj.index = original_obj_index\n        parameter.index = original_parameter_index\n        _replace_unique_string_with_none_name([self._obj, parameter], uuids)\n"),
+    ("c13-revert-one-level-multiindex", "C13", "pylife/core/broadcaster.py",
+     "            name = index.names[0]  # `index.name` is None for a MultiIndex with a single level\n", "            name = index.name\n"),
     ("c13-revert-collective-copy", "C13", "pylife/stress/collective/load_collective.py",
      "        diffs, obj = self.broadcast(diffs)\n        obj = obj.copy()  # for a scalar the broadcast hands back the collective itself\n",
      "        diffs, obj = self.broadcast(diffs)\n"),
